@@ -22,6 +22,7 @@ var equivHeaderSpellings = map[string][][]string{
 	"X-Raw":           {{"caf$XE9"}, {"caf$XE9"}, {"na$XEFve $XFF"}},
 	"Te":              {{"trailers, deflate"}, {"deflate, trailers"}, {"trailers,deflate"}, {" trailers ,  deflate"}, {"trailers", "deflate"}},
 	"Accept":          {{"text/html, application/json"}, {"application/json, text/html"}, {"text/html,application/json"}},
+	"Accept-Charset":  {{"a;level=1, a;level=2"}, {"a;level=2, a;level=1"}, {"a;level=2,a;level=1"}},
 }
 
 var otherHeaderValues = map[string][]string{
@@ -31,6 +32,7 @@ var otherHeaderValues = map[string][]string{
 	"X-Raw":           {"caf$XE8", "cafe"},
 	"Te":              {"trailers", "gzip"},
 	"Accept":          {"text/plain", "*/*"},
+	"Accept-Charset":  {"a;level=1", "b"},
 }
 
 // C09 generates histories in which stored replies stay fresh and are requested again under
@@ -61,7 +63,7 @@ func C09(t *rapid.T) *world.Scenario {
 			slots[i].res = ExactLenResource(n)
 		}
 		if Pct(t, "vary"+itoa(int64(i)), 35) {
-			slots[i].vary = Pick(t, "varyf"+itoa(int64(i)), "Accept-Encoding", "Accept-Language", "X-A", "X-Raw", "Te", "Accept")
+			slots[i].vary = Pick(t, "varyf"+itoa(int64(i)), "Accept-Encoding", "Accept-Language", "X-A", "X-Raw", "Te", "Accept", "Accept-Charset")
 		}
 	}
 	n := rapid.IntRange(2, 10).Draw(t, "steps")
